@@ -394,9 +394,9 @@ def TreeInv (root : Node) : Prop :=
     ((k = .list ∨ k = .array) → ∀ i, i < kids.length →
       ((natStr i).length ≤ intMaxDigits ∨ intMaxDigits = 0))
 
-/-- no Dict child on the way is an UNNAMED field (stored under the key `None`).  The general theorems
-    below are proved for such positions; unnamed fields (05c4adc) are covered at the first level by
-    `find_fq_unnamed` and otherwise by the runner's re-check of the iff on every generated tree. -/
+/-- no Dict child on the way is an UNNAMED field (stored under the key `None`).  Only the `*_named`
+    corollaries in `Proofs/C13Empty.lean` still mention it: the general theorems there
+    (`find_fq_addressable`, `find_fq_iff`, `C13_key_mismatch_fails`) hold without it. -/
 def namedFrom : Node → Pos → Bool
   | _, [] => true
   | .mk k _ _ kids, i :: p =>
